@@ -1,2 +1,59 @@
-(* C03 driver section: not implemented yet *)
-let init () = ()
+(* C03/C04: SoftSpoken OT extension model (coq/Model/SoftSpoken.v).  Structured data travel as the byte
+   images the Rust side obtains with bytemuck (row-major, repr(C) field order). *)
+module M = M_c03
+module S = Proto.Std (M)
+module C = S.C
+
+let rec nat_of_int (i : int) : M.nat = if i <= 0 then M.O else M.S (nat_of_int (i - 1))
+let split (n : int) (k : int) (l : 'a list) : 'a list list = M.chunks (nat_of_int n) (nat_of_int k) l
+let flat2 (m : M.n list list) : M.n list = List.concat m
+let flat3 (m : M.n list list list) : M.n list = List.concat (List.map List.concat m)
+
+(* [[[u8;32];16];64] *)
+let keys_of_hex (h : string) : M.n list list list =
+  List.map (split 32 16) (split (32 * 16) 64 (C.bytes_of_hex h))
+
+(* Round1Output { u : [[u8;80];64], x : [u8;16], t : [[u8;16];256] } *)
+let round1_of_hex (h : string) : M.round1Output =
+  let b = C.bytes_of_hex h in
+  match split 5120 1 b, split 16 1 (M.skipn (nat_of_int 5120) b), split 4096 1 (M.skipn (nat_of_int 5136) b) with
+  | [u], [x], [t] -> { M.r1_u = split 80 64 u; M.r1_x = x; M.r1_t = split 16 256 t }
+  | _ -> failwith "round1_of_hex"
+
+let init () =
+  (* recv sid enc_keys buf choices tape -> message bytes, recorded choices, v_x *)
+  Proto.register "c03.recv" (fun args -> match args with
+    | [sid; keys; buf; choices; tape] ->
+      let (m, e) = M.ss_receiver_buf S.transcript (C.bytes_of_hex sid) (keys_of_hex keys) (round1_of_hex buf)
+          (C.bytes_of_hex choices) (C.bytes_of_hex tape) in
+      [C.hex_of_bytes (M.round1_bytes m); C.hex_of_bytes e.M.re_choices; C.hex_of_bytes (flat3 e.M.re_v_x)]
+    | _ -> failwith "c03.recv: arity");
+  (* recv0: Default buffer *)
+  Proto.register "c03.recv0" (fun args -> match args with
+    | [sid; keys; choices; tape] ->
+      let (m, e) = M.ss_receiver S.transcript (C.bytes_of_hex sid) (keys_of_hex keys)
+          (C.bytes_of_hex choices) (C.bytes_of_hex tape) in
+      [C.hex_of_bytes (M.round1_bytes m); C.hex_of_bytes e.M.re_choices; C.hex_of_bytes (flat3 e.M.re_v_x)]
+    | _ -> failwith "c03.recv0: arity");
+  (* send sid random_choices dec_keys message -> ok v_0 v_1 | err code *)
+  Proto.register "c03.send" (fun args -> match args with
+    | [sid; deltas; keys; msg] ->
+      let seed = { M.random_choices = C.bytes_of_hex deltas; M.otp_dec_keys = keys_of_hex keys } in
+      (match M.ss_sender S.transcript (C.bytes_of_hex sid) seed (round1_of_hex msg) with
+       | M.Val o -> ["ok"; C.hex_of_bytes (flat3 o.M.se_v_0); C.hex_of_bytes (flat3 o.M.se_v_1)]
+       | M.Err e -> ["err"; C.hex_of_n e]
+       | M.Panic p -> ["panic"; C.hex_of_n p])
+    | _ -> failwith "c03.send: arity");
+  (* adv sid enc_keys choices tape e(64*80 bytes) g(64 bytes) -> message bytes *)
+  Proto.register "c03.adv" (fun args -> match args with
+    | [sid; keys; choices; tape; e; g] ->
+      let m = M.adv_receiver S.transcript (C.bytes_of_hex sid) (keys_of_hex keys) (C.bytes_of_hex choices)
+          (C.bytes_of_hex tape) (split 80 64 (C.bytes_of_hex e)) (C.bytes_of_hex g) in
+      [C.hex_of_bytes (M.round1_bytes m)]
+    | _ -> failwith "c03.adv: arity");
+  (* genseed keys picks -> enc keys, random_choices, dec keys *)
+  Proto.register "c03.genseed" (fun args -> match args with
+    | [keys; picks] ->
+      let (s, r) = M.gen_seed_ot (keys_of_hex keys) (C.bytes_of_hex picks) in
+      [C.hex_of_bytes (flat3 s); C.hex_of_bytes r.M.random_choices; C.hex_of_bytes (flat3 r.M.otp_dec_keys)]
+    | _ -> failwith "c03.genseed: arity")
